@@ -13,7 +13,7 @@ pub static DEF: CheckDef = CheckDef {
     id: "C08",
     run,
     replay,
-    rule: "instruction sequences over {EI, DI, RETI (as CALL to a RETI), HALT, STOP, NOP, LD A,v; LDH (0x0F),A (raise requests), LD A,v; LDH (0xFF),A (write IE)} are assembled at 0x0150 of a ROM whose five interrupt vectors hold generated handlers (RETI / RET / EI;RET / NOP;RETI / DI;RETI / EI;RETI), and executed one instruction at a time with Core::update() in the interpreter build. Enumerated completely: all sequences up to length 5 (quick) or 6 (thorough) x initial master enable (off, on, EI-pending) x 6 initial IF/IE patterns x 2 handler sets; plus proptest sequences up to length 40 with arbitrary operands, handlers and initial run state. Oracle: lock-step reference machine (models::sm83 + models::irq on a twin bus): after every step PC, SP, all registers, master-enable state, run state, IF, IE and the pending dispatch cycles must be equal; complete machine state at the end. A case ends where the reference would execute HALT with an enabled request already pending (excluded quirk; counted). Non-trivial = sequence in which at least one of these events occurs in the reference run: EI;DI, EI;EI, EI followed by RETI, HALT or STOP right after EI, a dispatch, a wake-up without dispatch, a dispatch directly after RETI.",
+    rule: "instruction sequences over {EI, DI, RETI (as CALL to a RETI), HALT, STOP (second byte 0x00; in the generated sequences also any other second byte, EI/DI/HALT/RETI opcodes included - it is never executed), NOP, LD A,v; LDH (0x0F),A (raise requests), LD A,v; LDH (0xFF),A (write IE)} are assembled at 0x0150 of a ROM whose five interrupt vectors hold generated handlers (RETI / RET / EI;RET / NOP;RETI / DI;RETI / EI;RETI), and executed one instruction at a time with Core::update() in the interpreter build. Enumerated completely: all sequences up to length 5 (quick) or 6 (thorough) x initial master enable (off, on, EI-pending) x 6 initial IF/IE patterns x 2 handler sets; plus proptest sequences up to length 40 with arbitrary operands, handlers and initial run state. Oracle: lock-step reference machine (models::sm83 + models::irq on a twin bus): after every step PC, SP, all registers, master-enable state, run state, IF, IE and the pending dispatch cycles must be equal; complete machine state at the end. A case ends where the reference would execute HALT with an enabled request already pending (excluded quirk; counted). Non-trivial = sequence in which at least one of these events occurs in the reference run: EI;DI, EI;EI, EI followed by RETI, HALT or STOP right after EI, a dispatch, a wake-up without dispatch, a dispatch directly after RETI.",
     assumptions: &[
         "models::sm83 + models::irq: EI enables after the following instruction, DI and RETI immediately, HALT/STOP suspend until IF & IE != 0, wake-up without dispatch when the master enable is off",
         "STOP is treated like HALT, as the property states it (no joypad-only wake-up)",
@@ -34,6 +34,8 @@ enum Sym {
     Nop,
     Raise(u8),
     WriteIe(u8),
+    /// STOP with an arbitrary second byte (the instruction is two bytes long whatever it holds)
+    Stop2(u8),
 }
 
 #[derive(Clone, Debug, serde::Serialize, serde::Deserialize)]
@@ -59,6 +61,7 @@ fn assemble(seq: &[Sym]) -> Vec<u8> {
             Sym::Reti => v.extend([0xcd, 0x00, 0x01]),
             Sym::Halt => v.push(0x76),
             Sym::Stop => v.extend([0x10, 0x00]),
+            Sym::Stop2(b) => v.extend([0x10, *b]),
             Sym::Nop => v.push(0x00),
             Sym::Raise(x) => v.extend([0x3e, *x, 0xe0, 0x0f]),
             Sym::WriteIe(x) => v.extend([0x3e, *x, 0xe0, 0xff]),
@@ -308,13 +311,14 @@ fn run(rec: &mut Rec) {
     }
     rec.exhaustive_part(format!("all sequences of length 0..={} over the 8-symbol alphabet x 3 master-enable states x 6 IF/IE patterns (x 2 handler sets where a dispatch is possible)", maxlen));
     // generated sequences
-    let cases = rec.ctx.tier.pick(2500u32, 120_000);
+    let cases = rec.ctx.tier.pick(4000u32, 120_000);
     let sym = prop_oneof![
         3 => Just(Sym::Ei),
         2 => Just(Sym::Di),
         2 => Just(Sym::Reti),
         2 => Just(Sym::Halt),
         1 => Just(Sym::Stop),
+        1 => prop_oneof![Just(0xfbu8), Just(0xf3), Just(0x76), Just(0xd9), Just(0x10), Just(0x3c), any::<u8>()].prop_map(Sym::Stop2),
         2 => Just(Sym::Nop),
         3 => (0u8..32).prop_map(Sym::Raise),
         1 => any::<u8>().prop_map(Sym::Raise),
